@@ -95,6 +95,9 @@ FIRST = {
     'j08-C08': 'missed -> M5 derived-spec-through-a-factory: a non-static method that returns treespecs does not hand one out through a static factory that ignores the namespace it is given (Child() -> MakeLeaf)',
     'j11-C11': 'idiom alarm only (S1 lost track of position 4 because the lookup moved into a local lambda; S2 analysis error) -> NS1 follows local lambdas that take a namespace and hand it on (the call `lookup("")` is the report); S1 / S2 read through locals and local lambdas',
     'j19-C19': 'missed -> new rule CL1 (a nested function does not read a loop variable its enclosing function has finished with)',
+    'k04-C04': 'caught (the same change as h01 / j04, written independently a third time)', 'k05-C05': 'caught', 'k08-C08': 'caught', 'k09-C09': 'caught',
+    'k10-C10': 'caught', 'k12-C12': 'caught', 'k14-C14': 'caught (the same change as j14, written independently)', 'k19-C19': 'caught', 'k20-C20': 'caught',
+    'k03-C03': 'missed -> new rule AL1 (all_leaves answers yes only after the last element and no exactly on the outcome "not a leaf"; is_leaf is the same decision for one object)',
     'g09-C09': 'caught', 'g10-C10': 'caught', 'g13-C13': 'caught', 'g18-C18': 'caught', 'g20-C20': 'caught',
     'g05-C05': 'analysis error only (five of the six edits are behaviour-preserving; F2 did not know the form) -> F2 reads `<leaves> if r is tree else treespec.flatten_up_to(r)` and reports the one that hands out `paths`',
     'c03-C03': 'missed by C03 (D2 reported it under C02 / C13) -> D2 now also decides C03',
